@@ -12,1143 +12,1133 @@ Definition show_fres (r : fres) : string :=
   end.
 Definition check (rs : list rune) : string := digest (show_fres (format_res rs)).
 Definition full (rs : list rune) : string := show_fres (format_res rs).
-Eval vm_compute in ("<<<M317>>>" ++ check (runes_of_ascii "MetaData Logon
-    {
-    char[]u8x , matchKey pack,
-u8 int ``, char[ 007
-    ]
-msg_type ,
-BodyLength o	,string_ crc  `a\`, } options	{
-    //x
-    trueish = int16 Packet
-    = char MetaDataX=
-char[
-//
+Eval vm_compute in ("<<<M1691>>>" ++ check (runes_of_ascii "  packet
+
+rootA {
+	char[
+	0
+	]len @calculatedFrom(	// `tick` ""quote"" 'q'
+	  ""abc""
+    )
+
+    ,u8 
+    // trailing space 
+
+uint8x
+	@lengthOf(	roots ) 	 // 50% %s
+
+`a\`
+    ,  int@calculatedFrom(	""a\""b""
+), 
+match	msg_type  as
+
+i8i8
+
+{ ""\" ++ [233]%N ++ runes_of_ascii """
+    : 
+
 // trailing space 
-255 ] // a // b
-;}	root
-    //
-    packet a1 // packet A { u8 x, }
-{ } root packet // c
-MetaDataX{
-@lengthOf(_x)
-repeat
-Logon{// " ++ [128512]%N ++ runes_of_ascii " emoji
-o
-a1 , uint64
-    u128 ,  } ,zchar[007] chars
-    `line1
-line2` ,	repeat Header u128`doc`, // " ++ [128512]%N ++ runes_of_ascii " emoji
-@calculatedFrom(""1"")int
-trueish
-, char[0123456789
-    ]
-uint8x,
-i8 int	@lengthOf( msg_type )`line1
-line2`
-,
-    //x
-    @rightPad (
-) repeat f64 Z9_, metadata{ falsey @calculatedFrom(
-""abc""
-) , }, options1 @calculatedFrom( ""\n"" ) ,@calculatedFrom(	""\n"" )  match metadata
-    as Header {[
-    """" ,  ""1"" ] :	Foo //
-, [  ""\n""
-, 10
-,
-// " ++ [27880; 37322]%N ++ runes_of_ascii "
-// c
-""{,}"" ]
-: Logon
-,
+      // a // b
+	Header
+	,	1/// triple
+  :zchar ,
+
+    [
+""\n""] :	string_ ""\n""
+: i8i8 0123456789 // c
+	:Logon
+
+[00,
+007 ,
+
+    ""1""
+,	""it's""//
+    ,  ""// no comment"" ,
+0
+
+,""a\\""
+, 007	// " ++ [27880; 37322]%N ++ runes_of_ascii "
+]  /// triple
+  :BodyLength }
+,match
+
+rootA
+    // @lengthOf(
+  // " ++ [27880; 37322]%N ++ runes_of_ascii "
+    as
+
+chars{ 
+7: Header }
+, A Foo // `tick` ""quote"" 'q'
+      `tab	here`	,
+float64
+
+    charz @calculatedFrom( ""\" ++ [233]%N ++ runes_of_ascii """
+)
+	,	f32
+
+tag
+	, @lengthOf(
+x
+
+    )// `tick` ""quote"" 'q'
+@leftPad
+(
+    '\x00') 
+crc  {repeat	i16 options1
+
+    `tab	here`,match
+    options1  as	charz { ""CRC32""  :
+    u,
+0 // " ++ [27880; 37322]%N ++ runes_of_ascii "
+  :	//
+  charz ""x y"":
+roots ,
 [
-    """"] :
-len
-, ""\n""  :// trailing space 
-msg_type , [ // c
-00 ]
-    : trueish , 10 : u8x, }
-    ,
-    } // " ++ [27880; 37322]%N ++ runes_of_ascii "
-root
-packet
-    BodyLength
-    { char[42
-] body  @calculatedFrom(
-    ""{,}"" ) `tab	here` // trailing space 
-,
-i32
-stringy  @calculatedFrom( """ ++ [28040; 24687]%N ++ runes_of_ascii """ ),  @tag(  0123456789	)
-@rightPad ( )@tag( 00 )  i16 a1 @lengthOf( pack// a // b
-) ,
-    @tag( 10
-)
-@leftPad ('\x00' ) // `tick` ""quote"" 'q'
-@calculatedFrom( ""a\""b"" ) repeat char[] // c
-stringy `
-`	, chars `say ""hi""`,
-@lengthOf(  a1 ) @leftPad( '0'  )
-    match Z9_
-as Header { 00
-    //	t
-    : As ,
-} // " ++ [27880; 37322]%N ++ runes_of_ascii "
-, o @calculatedFrom( """ ++ [128512]%N ++ runes_of_ascii """
-    )
-, @leftPad //	t
-(	)As// trailing space 
-@calculatedFrom( ""// no comment"") ,
-match x_y_z  as
-    BodyLength {
-""x y"" // `tick` ""quote"" 'q'
-:BodyLength
-, """ ++ [28040; 24687]%N ++ runes_of_ascii """  : packetx  , 0 :
-    Header ,
-    ""x y"" : matchKey
-    //	t
-    ,}, } // trailing space ")).
-Eval vm_compute in ("<<<M324>>>" ++ check (runes_of_ascii "MetaData Pad { char[] Packet , f32a i64_
-    `tab	here`
+""CRC32"" ,  """ ++ [233]%N ++ runes_of_ascii "t" ++ [233]%N ++ runes_of_ascii """ ]	:	i8i8
+, },  repeat 	 // " ++ [27880; 37322]%N ++ runes_of_ascii "
+	  falsey
+
+    { 
+match
+chars 
+as asx  {
+	""abc""
+
+:  stringy  , 
+}  , match
+	lengthOf
+	as
+
+charz
+	{
+
+0123456789  :
 // c
-// a // b
-,
-} root packet
-    As { @calculatedFrom(""CRC32""	)@calculatedFrom(  ""1""  ) @calculatedFrom( ""// no comment""
-// a // b
-//
-)	As
-As `say ""hi""` , Foo  msg_type , calculatedFrom
-@calculatedFrom( ""\n"" ) , zchar {	zchar[ 7 ] charz // `tick` ""quote"" 'q'
-@calculatedFrom(""x y"" )
-    , Z9_
-    `{ , }` , repeat int { zchar[ 3
-] i8i8
-    @lengthOf( chars )
-,
-match zchar as
-    o {1 : //
-u128	,
-    0
+	  //
+    o  // " ++ [27880; 37322]%N ++ runes_of_ascii "
+  ,""// no comment""	: chars  ,
+
+    [ 
+// @lengthOf(
+  	""""
+,	7
+, 255
+
+    ,	00 ,42
+
+    ]:  float
+    ,	} 
+, match
+    a1 as
+lengthOf	{
+
+    [ 	 /// triple
+	65535,
+	1 ] 
+:int
+    ""{,}""
+	:
+
+    calculatedFrom
+	, ""`tick`""
 :
-// trailing space 
-//x
-stringy
-, 42
-: charz""x y"": a1 3 : Header ,
-4294967296 : o } , repeat
-Header `two words`, match u8x  as u8x
-{
-[ 10] : pack ,	1 :
-BodyLength
-//
-// " ++ [27880; 37322]%N ++ runes_of_ascii "
-0 : MetaDataX
-,42
-:  calculatedFrom },	} /// triple
-, } , // " ++ [27880; 37322]%N ++ runes_of_ascii "
-}
-// `tick` ""quote"" 'q'
-/// triple
-packet
-    i64_ { }
-    root packet x { Header
-{char[ /// triple
-0 ] _x `// not a comment`
-    ,
-}
-    ,@lengthOf( A
-)uint32 f32a
-@calculatedFrom( ""abc""
-    )
-// `tick` ""quote"" 'q'
-// " ++ [27880; 37322]%N ++ runes_of_ascii "
-,
-repeat i16 trueish `u8 x,` ,@rightPad	( ' ' )@calculatedFrom( ""a\\"" ) float,
-    repeat char[ 7
-]zchar,
-    @tag( 10 ) repeat
-    //	t
-    a1 falsey	`say ""hi""`,
-    @lengthOf(
-len )repeat zchar[	00
-    // `tick` ""quote"" 'q'
-    ] uint8x ,}
-MetaData  metadata {
-u8 body
-, }")).
-Eval vm_compute in ("<<<M1565>>>" ++ check (runes_of_ascii "  options
 
-{FixedStringPadFromLeft
-=  true
-	;
-FixedStringPadChar= '0';
+    float  // @lengthOf(
+""// no comment""	:
+	Packet
+    [ 	 // c
+""\" ++ [233]%N ++ runes_of_ascii """ 
+, ""// no comment"" ,
 
-}packet
-    Leg	{
+    3
 
-InPrice0{
-
-    repeat string
-    clOrdID
-,
-	int16
-msgKind
-,zchar[
-	5 ]	Px
-    , } 
-, i16 f1
-    ,
-    repeat f64
-
-    Side2
-
-,
-	string  Acct ,  }
-
-    packet
-    Cancel
-    {	zchar[ 4 ]	clOrdID 
-, string seqNo
     , 
-Leg
-, @leftPad ('0'
-)
-	char[11
+""" ++ [128512]%N ++ runes_of_ascii """ 
+	    // packet A { u8 x, }
+	, 255
+	]:int ,
 
-    ]	OrderId,
-	} 
-packet
-Quote
-	{
-repeat
+//	t
+// trailing space 
+  } , 
+},	} ,}
+    options
+{msg_type
+= true
+lengthOf=
+zchar[
+	//
 
-char[ 4]
-sym
+1 // @lengthOf(
+  ]	;
 
-,
+    } 
+root 
+    //
 
-    f64
-	OrderId
-, repeat Leg,
-	repeat  i64
-f1 
-, int16 Note
-,
+  packet  packetx
+{ i8	// 50% %s
+tag  `line1
+line2`
 
-    zchar[3 ]
-    count,
-
-}	root  packet Ack
-	{  @leftPad(
-
-    ' ' 
-)char[
-
-    10
-
-    ] sym
-
-,
-
-InPx60
-	{
-Cancel
-
-    , repeat
-	char[1
-
-    ] f1,
-
-    string
-    Tail
     ,
-    repeat 
-InNote55 
-{ int8  count,	f64
-f1,repeat
+	// @lengthOf(
+}
 
-    Cancel ,}
-	,
-    char[] tag7 
+")).
+Eval vm_compute in ("<<<M379>>>" ++ check (runes_of_ascii "options {
+	StringPrefixLenType = u16;
+	ArrayPrefixLenType = u16;
+}
+
+packet SampleBinary {
+    uint16 MsgType `" ++ [28040; 24687; 31867; 22411]%N ++ runes_of_ascii "`,
+    u16 BodyLenght @lengthOf(Body) `" ++ [28040; 24687; 20307; 38271; 24230]%N ++ runes_of_ascii "`,
+    match MsgType as Body {
+        1 : Logon,
+        2 : Logout,
+        3 : Heartbeat,
+        4 : RiskControlRequest,
+        5 : RiskControlResponse,
+    },
+        @calculatedFrom(""CRC32"")
+    u32 Ckecksum `" ++ [26657; 39564; 21644]%N ++ runes_of_ascii "`,
+}
+
+packet Logon {
+     @leftPad('0')
+    char[10] UserName `" ++ [29992; 25143; 21517]%N ++ runes_of_ascii "`,
+    string Password `" ++ [23494; 30721]%N ++ runes_of_ascii "`,
+    uint64 ClientId `" ++ [23458; 25143; 31471]%N ++ runes_of_ascii "ID`,
+    u16 HeartbeatInterval `" ++ [24515; 36339; 38388; 38548]%N ++ runes_of_ascii "`,
+}
+
+packet Logout {
+      @rightPad('0')
+    char[10] UserName `" ++ [29992; 25143; 21517]%N ++ runes_of_ascii "`,
+    uint64 ClientId `" ++ [23458; 25143; 31471]%N ++ runes_of_ascii "ID`,
+}
+
+packet Heartbeat {
+}
+
+packet RiskControlRequest {
+    string UniqueOrderId `" ++ [21807; 19968; 35746; 21333; 21495]%N ++ runes_of_ascii "`,
+    char[16] ClOrdID `" ++ [23458; 25143; 35746; 21333; 21495]%N ++ runes_of_ascii "`,
+    char[3] MarketID `" ++ [24066; 22330]%N ++ runes_of_ascii "id`,
+    char[12] SecurityID `" ++ [35777; 21048; 20195; 30721]%N ++ runes_of_ascii "`,
+    char Side `" ++ [20080; 21334; 26041; 21521]%N ++ runes_of_ascii "`,
+    char OrderType `" ++ [35746; 21333; 31867; 22411]%N ++ runes_of_ascii "`,
+    u64 Price `" ++ [20215; 26684]%N ++ runes_of_ascii "`,
+    u32 Qty `" ++ [25968; 37327]%N ++ runes_of_ascii "`,
+    repeat string ExtraInfo `" ++ [38468; 21152; 20449; 24687]%N ++ runes_of_ascii "`,
+    repeat SubOrder {
+    		char[16] ClOrdID `" ++ [23376; 35746; 21333; 21495]%N ++ runes_of_ascii "`,
+    		u64 Price `" ++ [23376; 35746; 21333; 20215; 26684]%N ++ runes_of_ascii "`,
+    		u32 Qty `" ++ [23376; 35746; 21333; 25968; 37327]%N ++ runes_of_ascii "`,
+    	},
+}
+
+packet RiskControlResponse {
+    string UniqueOrderId `" ++ [21807; 19968; 35746; 21333; 21495]%N ++ runes_of_ascii "`,
+    i32 Status `" ++ [29366; 24577]%N ++ runes_of_ascii "`,
+    string Msg `" ++ [32467; 26524; 20449; 24687]%N ++ runes_of_ascii "`,
+    repeat Detail,
+}
+
+packet Detail {
+    string RuleName `" ++ [35268; 21017; 21517; 31216]%N ++ runes_of_ascii "`,
+    u16 Code `" ++ [21407; 22240; 20195; 30721]%N ++ runes_of_ascii "`,
+}")).
+Eval vm_compute in ("<<<M1550>>>" ++ check (runes_of_ascii "  options
+
+    {
+
+    Foo =
+true;
+len=
+'\x00'asx=
+
+    '0'
+	;  asx
+
+    =  // packet A { u8 x, }
+  3 
+; 
+
+    // " ++ [128512]%N ++ runes_of_ascii " emoji
+      //
+
+} 	 //	t
+  packet
+u128
+
+    { uint8
+
+crc `doc`	,
+Z9_
 , 
 repeat
+    i8
+roots , @lengthOf(  crc
+	) repeat As
+    `two words` , zchar[  007 ] 
+//x
 
-string
-	msgKind  , } ,
-    u8
-    lastPx ,match
-lastPx
-as
-	Body
-    { 152
-
-    : Quote
-,  173
-:  Cancel ,
-	4:
-Leg, 
-}
-	, u16 Ref @calculatedFrom( 
-""CRC32""	)	, 
-}
-")).
-Eval vm_compute in ("<<<M1458>>>" ++ check (runes_of_ascii "packet pack {
-    @lengthOf(Foo)
-    asx @lengthOf(_x),
-    u8 x_y_z `two words`,
-    repeat zchar[0] roots `
-    `,
-    lengthOf @calculatedFrom(""abc""),
-    @tag(3)
-    @rightPad(' ')
-    @calculatedFrom(""1"")
-    repeat uint64 i64_ `say ""hi""`,
-    @tag(007)
-    match roots as float {
-        ""a	b"" : lengthOf,
-        [
-            1, ""\n"", ""a\""b"", ""\" ++ [233]%N ++ runes_of_ascii """, ""1"",
-            42
-        ] : msg_type,
-        """ ++ [128512]%N ++ runes_of_ascii """ : Foo,
-    },
-    T {
-        match Header as trueish {
-            [
-                0, 3, ""{,}"", ""1"", 00,
-                0123456789, ""// no comment""
-            ] : As,
-        },
-    },
-    repeat char[10] o `
-    `,
-    @calculatedFrom(""`tick`"")
-    repeat crc {
-        repeatCount o,
-        u8x As,
-    },
-}
-
-packet pack {
-    @calculatedFrom(""" ++ [233]%N ++ runes_of_ascii "t" ++ [233]%N ++ runes_of_ascii """)
-    u32 f32a,
-}
-
-MetaData float {
-    u32 options1,
-}
-
-packet f32a {
-}")).
-Eval vm_compute in ("<<<M1599>>>" ++ check (runes_of_ascii "  options{StringPrefixLenType  =	u8 
-;ArrayPrefixLenType 
-=
-
-u32	;	FixedStringPadFromLeft
-    =	true
-; FixedStringPadChar
-    = ' '
-
-    ;
-}
-	packet
-	Leg
-{
-
-}
-	packet Heartbeat { zchar[ 6] msgKind ,  @rightPad
-	(  '0' ) char[	3
-
-    ]	Qty
-,  zchar[
-9
-	] Side2
-	,
-i8 Acct	, 
-}packet
-Logout  {  int8
-
-x, 
-} packet
-    Order {  char[]
-	Acct
-
-    ,
-zchar[ 8 
-]
-count
-
-    ,
-    u32
-    OrderId,
-	uint8 lastPx	,u16 clOrdID
-, zchar[
-7 ]Note ,
-
-    }
-root
+tag `// not a comment`, }
 
     packet
-Reject
-	{ @leftPad(
 
-    ' ' ) char[
+    pack	// c
 
-8]	Side2, i8 clOrdID
-    ,  repeat
-f32
-
-    x
-	, u32
-lastPx , match
-
-    lastPx
-    as
-Body 
-{[	30
-	,
-
-147
-    ] :
-Heartbeat
-
-    , 134 : Leg	,  183:Logout
-    ,  40
-    : Order	, 
-}
-
-, u16 Ref
-@calculatedFrom(
-    ""CRC32""  )
-
-    , 
-} ")).
-Eval vm_compute in ("<<<M1315>>>" ++ check (runes_of_ascii "// top
-packet // c0
-MDSnapshotZZ // c1a
-  // c1b
-{ // c2
-u8 a // c4
-, // c5a
-  // c5b
-} // c6
-packet OrderACK // c8
-{ // c9a
-  // c9b
-u16 b // c11
-,
-    // c12
-} // c13a
-  // c13b
-packet
-    // c14
-HTTPServerInfo
-    // c15
-{ // c16
-string s
-    // c18
-,
-    // c19
-}
-    // c20
-root // c21a
-  // c21b
-packet // c22
-FIXMsg // c23
-{ u8 // c25a
-  // c25b
-KType // c26a
-  // c26b
-, // c27a
-  // c27b
-MDSnapshotZZ
-    // c28
-, // c29a
-  // c29b
-repeat
-    // c30
-OrderACK , // c32a
-  // c32b
-match // c33
-KType as // c35a
-  // c35b
-Body // c36
 {
-    // c37
-1 :
-    // c39
-HTTPServerInfo , 2 // c42
-:
-    // c43
-OrderACK
-    // c44
-, } // c46a
-  // c46b
+string msg_type ,@calculatedFrom( """")
+
+repeat
+string
+tag `u8 x,`
+	, int16
+leftPad  ,
+
+@tag(  1 
+    // " ++ [27880; 37322]%N ++ runes_of_ascii "
+	)
+crc
+    , }
+	    /// triple
+
+	// a // b
+	root
+packet  packetx {@rightPad
+(
+'0' )
+	float64
+
+o
+// a // b
+
+  `two words` ,
+	repeat	//	t
+    string_
+
+crc
+
+    ,
+
+i64 As `line1
+line2`
+
 ,
-    // c47
-} // c48a
-  // c48b
-")).
-Eval vm_compute in ("<<<M342>>>" ++ check (runes_of_ascii "root packet Z9_	{  repeat i8i8 int`// not a comment`
-,	uint8x
-    // c
-    , f64 i8i8  `tab	here` ,@tag(
-3 ) @tag( 3 ) @tag( /// triple
-10
-// trailing space 
-// trailing space 
-) repeat int{ MetaDataX // " ++ [27880; 37322]%N ++ runes_of_ascii "
-,} , @tag( 10
-    ) int8
-    pack@lengthOf(x
-    ), Logon ,	@tag( 00
-) repeat
-rootA
-uint8x ,  @calculatedFrom( ""\n"" // a // b
-) // `tick` ""quote"" 'q'
-@lengthOf( len )
+
+    @lengthOf( rootA 	 //
+)
+u32
+Logon
+
+@lengthOf(
+
+a1 ), 
+@calculatedFrom(""""
+
+    )  @leftPad 
+    //x
 // @lengthOf(
-// `tick` ""quote"" 'q'
-BodyLength  { matchKey f32a
-//x
-// `tick` ""quote"" 'q'
-`say ""hi""` ,} ,  char[] leftPad `{ , }` ,
-@lengthOf( float )match repeatCount as	o { 255 : matchKey ,
-    // " ++ [128512]%N ++ runes_of_ascii " emoji
-    00:	A 007 :
-    options1 } , }
-")).
-Eval vm_compute in ("<<<M1345>>>" ++ check (runes_of_ascii "options {
-    LittleEndian = false;
+	(' '	)uint16	i8i8 
+@calculatedFrom(
+""// no comment"" )
+	,
+	repeat char[]	a1  ,
+    u128	{ 
+
+    // packet A { u8 x, }
+
+  // trailing space 
+    falsey
+    @lengthOf( pack) ,
+int16
+    packetx  ,i64_ 
+@calculatedFrom( ""\" ++ [233]%N ++ runes_of_ascii """
+)
+
+`{ , }` 
+  // " ++ [27880; 37322]%N ++ runes_of_ascii "
+,int64
+i8i8
+
+    `a\`  ,
+}
+
+,
+    } ")).
+Eval vm_compute in ("<<<M1352>>>" ++ check (runes_of_ascii "options {
+    LittleEndian = true;
+    StringPrefixLenType = u8;
     ArrayPrefixLenType = u8;
     FixedStringPadFromLeft = true;
     FixedStringPadChar = '0';
 }
-packet Heartbeat {
-    string lastPx,
-    uint8 Qty,
-    i64 Acct,
-    char[4] Ref,
+packet Logon {
+    repeat i8 Ref,
+    @rightPad('0') char[8] msgKind,
+    repeat InOrderid72 {
+        u8 Side2,
+        uint32 Qty,
+        repeat InPrice27 {
+            repeat char[4] Acct,
+            u64 sym,
+        },
+        zchar[4] clOrdID,
+        int16 lastPx,
+        InAcct22 {
+            repeat char[3] OrderId,
+        },
+    },
+    int64 Px,
 }
 packet Fill {
-    uint8 Ref,
-    Heartbeat,
-    f32 OrderId,
-    repeat f32 x,
+    uint16 Qty,
+    repeat char[1] Flags,
+    i8 Ref,
 }
-root packet Order {
-    zchar[2] OrderId,
-    zchar[2] Acct,
-    zchar[1] Note,
-    zchar[9] Qty,
-    string price,
-    string tag7,
-    u32 x,
-    match x as Body {
-        123 : Fill,
-        112 : Heartbeat,
+packet Logout {
+    @leftPad('0') char[3] x,
+    int8 f1,
+    Logon,
+    uint16 venue,
+    zchar[2] Px,
+}
+packet Reject {
+}
+root packet Leg {
+    Fill,
+    u16 msgKind,
+    match msgKind as Body {
+        [182, 83] : Fill,
+        199 : Reject,
+        137 : Logout,
+        35 : Logon,
     },
-    u32 seqNo @calculatedFrom(""CRC32""),
+    u32 lastPx @calculatedFrom(""CRC32""),
 }
 ")).
-Eval vm_compute in ("<<<M1351>>>" ++ check (runes_of_ascii "
-options
-{ArrayPrefixLenType=
+Eval vm_compute in ("<<<M1907>>>" ++ check (runes_of_ascii "// a // b
+root packet uint8x {
+    repeat x {
+        tag @calculatedFrom(""// no comment"") `it's`,
+    },
+    //x
+    A @calculatedFrom(""abc""),
+    uint64 zchar,
+    //	t
+    //	t
+    zchar[7] msg_type,
+    @calculatedFrom(""" ++ [28040; 24687]%N ++ runes_of_ascii """)
+    crc,
+    // `tick` ""quote"" 'q'
+    f32a Pad,
+    Header,// trailing space 
+    zchar[42] x @calculatedFrom(""\n"") `" ++ [28040; 24687; 31867; 22411]%N ++ runes_of_ascii "`,
+    string len,
+}
 
-u64
+packet falsey {
+    // " ++ [27880; 37322]%N ++ runes_of_ascii "
+    i64_ @calculatedFrom(""{,}""),
+    repeat string chars,
+    // `tick` ""quote"" 'q'
+    zchar[7] calculatedFrom,
+    Header {
+        char u `crlf
+        line`,
+        repeat char[] tag `a\`,
+        Z9_ @lengthOf(T) `say ""hi""`,
+    },
+    /// triple
+    // " ++ [27880; 37322]%N ++ runes_of_ascii "
+    msg_type @calculatedFrom(""// no comment""),
+    @rightPad('\x00')
+    @lengthOf(asx)
+    falsey,
+}// a // b")).
+Eval vm_compute in ("<<<M75>>>" ++ check (runes_of_ascii "  options { _x =  '0'
+// a // b
+// packet A { u8 x, }
+; Logon =
+false	}packet
+    A {} packet //
+Logon
+{ @leftPad (
+' ' ) repeat	repeatCount { stringy  @lengthOf(
+// " ++ [27880; 37322]%N ++ runes_of_ascii "
+// trailing space 
+len // @lengthOf(
+)`say ""hi""`
+, repeat metadata
+    `u8 x,` , match x as
+    int { [ ""`tick`"",7
+] // trailing space 
+: BodyLength ,255 : packetx
+42 // " ++ [128512]%N ++ runes_of_ascii " emoji
+:
+_x ,} ,
+    } , @rightPad ('0' ) @leftPad
+    (	' ' )
+@tag(65535 ) Header
+    `{ , }`	,int16 // trailing space 
+stringy
+    @lengthOf( // " ++ [128512]%N ++ runes_of_ascii " emoji
+calculatedFrom  ),
+repeat MetaDataX {x_y_z ,	repeat //
+calculatedFrom o`doc`
+,string_ repeatCount , rootA {repeatCount
+@calculatedFrom(
+""\" ++ [233]%N ++ runes_of_ascii """) `tab	here`	,
+}
+    , },
+    }")).
+Eval vm_compute in ("<<<M1656>>>" ++ check (runes_of_ascii "options {
+    stringy = zchar[0123456789]
+}
 
-    ; 
-FixedStringPadFromLeft =
+MetaData charz {
+    zchar[42] calculatedFrom,
+    // `tick` ""quote"" 'q'
+    char[65535] trueish,
+    float64 roots `doc`,
+}
 
-    true ; 
-FixedStringPadChar 
+packet calculatedFrom {
+    @calculatedFrom(""" ++ [128512]%N ++ runes_of_ascii """)
+    string crc `crlf
+    line`,
+    MetaDataX {
+        Packet @lengthOf(packetx) `{ , }`,// trailing space 
+        repeat trueish As,
+    },
+    int64 T,// `tick` ""quote"" 'q'
+    match uint8x as i64_ {
+        00 : _x,
+        65535 : Z9_,
+        ""1"" : u8x,
+        007 : Z9_,
+        /// triple
+        255 : matchKey,
+        ""1"" : crc,
+    },// " ++ [128512]%N ++ runes_of_ascii " emoji
+}// @lengthOf(")).
+Eval vm_compute in ("<<<M1335>>>" ++ check (runes_of_ascii "// top
+root // c0
+packet // c1
+Frame // c2a
+  // c2b
+{ // c3
+u8 K
+    // c5
+, Logon
+    // c7
+first // c8a
+  // c8b
+, // c9a
+  // c9b
+match K as
+    // c12
+Body // c13a
+  // c13b
+{ 1 // c15a
+  // c15b
+:
+    // c16
+Logon ,
+    // c18
+2
+    // c19
+:
+    // c20
+Logout // c21
+,
+    // c22
+} // c23
+, // c24a
+  // c24b
+}
+    // c25
+packet // c26a
+  // c26b
+Logon // c27a
+  // c27b
+{ string // c29
+user
+    // c30
+,
+    // c31
+} // c32
+packet
+    // c33
+Logout
+    // c34
+{ // c35a
+  // c35b
+u16
+    // c36
+reason // c37
+,
+    // c38
+} ")).
+Eval vm_compute in ("<<<M1866>>>" ++ check (runes_of_ascii "packet x_y_z {
+    repeat asx {
+        falsey @lengthOf(u) `100% of %d`,
+        repeat matchKey {
+            x_y_z @calculatedFrom(""a\\""),
+            i64 calculatedFrom @calculatedFrom(""// no comment"") `{ , }`,
+        },
+        // c
+        //	t
+        char[007] Foo @calculatedFrom(""abc""),
+    },
+    repeat uint32 Pad,
+    repeat Logon {
+        Logon {
+            char[] packetx @calculatedFrom(""it's"") `
+                        `,
+        },
+        i8 len,
+        asx,
+    },
+}")).
+Eval vm_compute in ("<<<M360>>>" ++ check (runes_of_ascii "root packet
+    MetaDataX
+    { u16 Logon@lengthOf( body
+), match
+lengthOf as As {
+    // " ++ [128512]%N ++ runes_of_ascii " emoji
+    7 :As	42 :
+rootA
+    , 0123456789 : repeatCount
+    ,
+""abc"":Packet ,
+""1"": trueish ""a	b"" :
+//x
+// " ++ [128512]%N ++ runes_of_ascii " emoji
+leftPad  ,	}	, match x as A// 50% %s
+{ ""`tick`"" : trueish ,}
+, uint32 u8x`tab	here`	, tag @calculatedFrom(
+    """ ++ [28040; 24687]%N ++ runes_of_ascii """
+    ),
+repeat body//	t
+repeatCount ,
+@calculatedFrom(""x y"")  asx @calculatedFrom( // `tick` ""quote"" 'q'
+""a\""b""
+    ) , }")).
+Eval vm_compute in ("<<<M1590>>>" ++ check (runes_of_ascii "packet body {
+    @leftPad('0')
+    stringy roots,
+    @rightPad('0')
+    asx @lengthOf(_x),
+    //	t
+}
+
+packet chars {
+    @tag(255)
+    i32 msg_type,
+    o {
+        pack @calculatedFrom(""abc""),
+        match rootA as tag {
+            [0123456789, 7] : len,
+        },
+        u32 BodyLength @calculatedFrom(""packet"") `say ""hi""`,
+        lengthOf u,
+    },
+    @rightPad(' ')
+    repeat f32a,
+}
+
+MetaData msg_type {
+}")).
+Eval vm_compute in ("<<<M35>>>" ++ check (runes_of_ascii "options {  stringy =
+// packet A { u8 x, }
+// a // b
+true
+;
+    x_y_z
 =
-'0' ;
+    false x ='\x00' //x
+;
+matchKey  =
+    i64
+; // c
+}root packet o {@lengthOf( float ) int32 As
+,
+}
+    root
+/// triple
+// trailing space 
+packet x
+{ // a // b
+@rightPad
+( ) i8i8 @calculatedFrom( ""x y"")//x
+, } MetaData
+u  { A
+    /// triple
+    u8x ,
+} options {
+    u8x = i64 _x  =""CRC32"" ; MetaDataX = u8 }
+")).
+Eval vm_compute in ("<<<M168>>>" ++ check (runes_of_ascii "MetaData o//
+{MetaDataX  As `crlf
+line` ,string_	T , zchar[
+1 ] Header , //	t
+} packet packetx { // " ++ [128512]%N ++ runes_of_ascii " emoji
+repeat //	t
+char[ 10
+// @lengthOf(
+//
+] crc
+`a\` ,  @tag( 42 ) repeat char[]asx `// not a comment` , zchar[
+// a // b
+// " ++ [128512]%N ++ runes_of_ascii " emoji
+007 ]
+len @lengthOf( u )`a\` ,@leftPad ( '\x00' ) @tag(	3 )@calculatedFrom( ""a\""b"") char[ //x
+10] As
+`
+`  , }
+")).
+Eval vm_compute in ("<<<M217>>>" ++ check (runes_of_ascii "root packet i8i8 {
+    msg_type@lengthOf( asx
+    // packet A { u8 x, }
+    )  , Logon
+{ msg_type{ repeat
+x_y_z `say ""hi""` ,
     }
+, } ,
+    Z9_ , repeatCount
+//x
+/// triple
+{char[]	asx,
+    // " ++ [128512]%N ++ runes_of_ascii " emoji
+    float32 options1,
+repeat  uint64 x	`two words`,chars
+    `` , } ,
+// 50% %s
+// 50% %s
+repeat A float , } 	 ")).
+Eval vm_compute in ("<<<M1327>>>" ++ check (runes_of_ascii "
+packet
 
-packet Quote{  }packet
-Ack
+MDSnapshotZZ {
+
+u8  a	,
+
+}packet	OrderACK
 
 {
-    repeat
-InNote66{  u8 pad0  ,
 
-    },	} packet	Reject  {
-}  root
-packet Order{ 
-Quote , repeat Reject ,
+    u16
+    b , }	packet
+    HTTPServerInfo {  string s, }
 
-string venue
-	,
-string seqNo 
-,
-uint32
-    Ref ,
-u16 lastPx, 
-u32
-    clOrdID	@lengthOf(
+    root  packet
+FIXMsg
+    { 
+u8 KType  ,  MDSnapshotZZ
+	, repeat OrderACK
+    ,  match
+
+    KType  as 
 Body
-) ,match lastPx as Body{ 190
-: 
-Reject
+
+    { 1 :HTTPServerInfo ,2: OrderACK ,
+}	,
+	}")).
+Eval vm_compute in ("<<<M292>>>" ++ check (runes_of_ascii "
+packet len{
+    // @lengthOf(
+    } root packet stringy
+//
+/// triple
+{
+    // `tick` ""quote"" 'q'
+    } MetaData	stringy {char[ 0 ]	falsey `tab	here`,falsey u
+    /// triple
+    , Header crc,
+// `tick` ""quote"" 'q'
+// `tick` ""quote"" 'q'
+trueish
+zchar, //x
+}
+")).
+Eval vm_compute in ("<<<M514>>>" ++ check (runes_of_ascii "packet
+    asx { @calculatedFrom(
+""""  ) @tag( 255 )repeat
+// packet A { u8 x, }
+// trailing space 
+int16 u8x
+,
+@tag(
+    //
+    007 )
+    @tag( 0
+    /// triple
+    ) @tag( 1) u
+    @lengthOf( T packet,
+// `tick` ""quote"" 'q'
+//x
+} // " ++ [128512]%N ++ runes_of_ascii " emoji")).
+Eval vm_compute in ("<<<M484>>>" ++ check (runes_of_ascii "packet
+    asx { @calculatedFrom(
+""""  ) @tag( 255 )repeat
+// packet A { u8 x, }
+// trailing space 
+int16 u8x
+,
+@tag(
+    //
+    007 )
+    @tag( 0
+    /// triple
+    ) uint32 1) u
+    @lengthOf( T ),
+// `tick` ""quote"" 'q'
+//x
+} // " ++ [128512]%N ++ runes_of_ascii " emoji")).
+Eval vm_compute in ("<<<M468>>>" ++ check (runes_of_ascii "packet
+    asx { @calculatedFrom(
+""""  ) @tag( 255 )repeat
+// packet A { u8 x, }
+// trailing space 
+int16 u8x
+,
+@tag(
+    //
+    007 )
+    0 @tag(
+    /// triple
+    ) @tag( 1) u
+    @lengthOf( T ),
+// `tick` ""quote"" 'q'
+//x
+} // " ++ [128512]%N ++ runes_of_ascii " emoji")).
+Eval vm_compute in ("<<<M521>>>" ++ check (runes_of_ascii "packet
+    asx { @calculatedFrom(
+""""  ) @tag( 255 )repeat
+// packet A { u8 x, }
+// trailing space 
+int16 u8x
+,
+@tag(
+    //
+    007 )
+    @tag( 0
+    /// triple
+    ) @tag( 1) u
+    @lengthOf( T ),
+// `tick` ""quote"" 'q'
+//x
+ // " ++ [128512]%N ++ runes_of_ascii " emoji")).
+Eval vm_compute in ("<<<M339>>>" ++ check (runes_of_ascii "packet len
+    {
+    @calculatedFrom( ""{,}"" )
+zchar[ 10 ] packetx`line1
+line2` , @lengthOf( metadata
+) @calculatedFrom( ""a	b""
+    ) matchKey@lengthOf( As
+    ) , chars
+// 50% %s
+// a // b
+uint8x `a\` ,  char[ 65535 ] Foo,	}")).
+Eval vm_compute in ("<<<M1680>>>" ++ check (runes_of_ascii "MetaData
+    u  { 
+}MetaData
+	o {	uint8x
+	float
+	`100% of %d`
+, 
+repeatCount
+u8x ,
+
+    string_
+
+    leftPad
+    , i32 Foo ,  int64
+    x `two words`
 
     ,
-	186 :
-    Quote
+	calculatedFrom  stringy `a\`
+
+, }
+")).
+Eval vm_compute in ("<<<M351>>>" ++ check (runes_of_ascii "options { i8i8=00 matchKey = 4294967296 msg_type = ' ' metadata
+    = 4294967296}//
+packet u8x {@tag( 4294967296 )	@leftPad( /// triple
+'0'  )
+@tag( 1
+) asx A`// not a comment`,  }
+")).
+Eval vm_compute in ("<<<M617>>>" ++ check (runes_of_ascii "MetaData u
+    { } MetaData o
+{ float uint8x
+`100% of %d` ,repeatCount u8x, string_ string_ leftPad
+, i32
+    Foo , int64 x `two words` , calculatedFrom
+stringy `a\` ,
+}
+")).
+Eval vm_compute in ("<<<M710>>>" ++ check (runes_of_ascii "packet
+crc
+{repeat  Foo `u8 x,`  A ,	@lengthOf( uint8x ) string
+matchKey @lengthOf( stringy ) `a\`
+,
+    // c
+    }
+MetaData chars{
+leftPad
+    //	t
+    crc
+`" ++ [233]%N ++ runes_of_ascii "`
+,}")).
+Eval vm_compute in ("<<<M705>>>" ++ check (runes_of_ascii "MetaData u
+    { } MetaData o
+{ float uint8x
+`100% of %d` ,repeatCount u8x, string_ leftPad
+, i32
+    Foo , int64 x `two words` , calculatedFrom
+stringy `a\` ',
+}
+")).
+Eval vm_compute in ("<<<M658>>>" ++ check (runes_of_ascii "MetaData u
+    { } MetaData o
+{ float uint8x
+`100% of %d` ,repeatCount u8x, string_ leftPad
+, i32
+    Foo , int64 x , `two words` calculatedFrom
+stringy `a\` ,
+}
+")).
+Eval vm_compute in ("<<<M631>>>" ++ check (runes_of_ascii "MetaData u
+    { } MetaData o
+{ float uint8x
+`100% of %d` ,repeatCount u8x, string_ leftPad
+, 
+    Foo , int64 x `two words` , calculatedFrom
+stringy `a\` ,
+}
+")).
+Eval vm_compute in ("<<<M1274>>>" ++ check (runes_of_ascii "
+packet	B
+    {
+
+    u8	a 
+,  } root
+
+    packet P{ u8	K,
+
+u64
+L @lengthOf(
+
+    Body
+
+    )
+
+    ,
+match
+    K  as
+	Body
+    { 1 :
+
+B
 ,
 
-22 
-:Ack , } ,
-u16 Flags
-@calculatedFrom( ""CRC32""	) ,	}
+}  ,}
 ")).
-Eval vm_compute in ("<<<M140>>>" ++ check (runes_of_ascii "
-root packet int{	repeat
-    float tag , char[] roots
-, @lengthOf( repeatCount ) @lengthOf( // packet A { u8 x, }
-rootA)
-uint16 o
-    `tab	here` ,
-    //	t
-    i16 Pad `line1
-line2` , Pad{match Pad as
-    _x
-{ [00]
-:
-    Z9_
-, } ,} , repeat zchar calculatedFrom`a\` ,	f64 // @lengthOf(
-charz
-    //x
-    ,Pad
-    Foo,@calculatedFrom(
-    """ ++ [28040; 24687]%N ++ runes_of_ascii """ )
-    charz
-    @lengthOf( charz ), @lengthOf(
-    rootA ) match o
-as body {00 :
-x_y_z// " ++ [128512]%N ++ runes_of_ascii " emoji
-} ,}
+Eval vm_compute in ("<<<M1675>>>" ++ check (runes_of_ascii "MetaData len {
+}
+
+packet int {
+    repeat char[1] stringy,
+}// a // b
+
+packet MetaDataX {
+    zchar[10] leftPad @calculatedFrom(""// no comment""),
+}")).
+Eval vm_compute in ("<<<M119>>>" ++ check (runes_of_ascii "packet len { // " ++ [128512]%N ++ runes_of_ascii " emoji
+Pad,  @tag( //	t
+4294967296 ) @calculatedFrom( ""{,}""
+    ) char[
+0123456789 ] o @calculatedFrom(
+""it's"" ) ,}
 ")).
-Eval vm_compute in ("<<<M1870>>>" ++ check (runes_of_ascii "packet Header {
-    match roots as packetx {
-        // `tick` ""quote"" 'q'
-        [""" ++ [28040; 24687]%N ++ runes_of_ascii """, 0123456789] : packetx,
-        //
-        // c
-        4294967296 : Logon,
-        [""\n"", ""x y"", ""packet"", ""packet""] : i8i8,
-        42 : Foo,
-    },//	t
-    @calculatedFrom(""x y"")
-    f64 Logon,
+Eval vm_compute in ("<<<M1810>>>" ++ check (runes_of_ascii "options {
+    // c
 }
 
 options {
-    // " ++ [128512]%N ++ runes_of_ascii " emoji
-    chars = ' ';
-    repeatCount = """ ++ [233]%N ++ runes_of_ascii "t" ++ [233]%N ++ runes_of_ascii """
-    x = ""\n"";
-    calculatedFrom = ""`tick`"";
-}")).
-Eval vm_compute in ("<<<M235>>>" ++ check (runes_of_ascii "packet crc
-// a // b
-//x
-{	u128
-    packetx , // " ++ [128512]%N ++ runes_of_ascii " emoji
-match roots	as
-    //
-    falsey
-{ 0123456789 // a // b
-: Header ""packet""// a // b
-: // a // b
-Z9_	3 : A ,
-// trailing space 
-// a // b
-""a	b""  : roots 10
-:  _x
-, } , @tag( 255// a // b
-) match
-calculatedFrom  as	o {
-    255 : string_ """ ++ [28040; 24687]%N ++ runes_of_ascii """ : i64_
-,	} , }MetaData
-T
-{ float64 u	,} packet Pad { /// triple
+    MetaDataX = char;
 }
-")).
-Eval vm_compute in ("<<<M1722>>>" ++ check (runes_of_ascii "options  {
-	LittleEndian	=  true ;
-    }  packet
 
-    Logon
-	{
-u8 
-x,}
-
-    packet
-
-Logout 
-{
-	u16 reason,
-}root
-    packet
-    Frame
-{
-
-    u8	Kind
-
-    ,
-u8	Kind2
-
-    ,  match Kind
-as
-Body 
-{
-
-    1
-: Logon  , [ 
-2,  3	, 
-4	]
-	:	Logout
-, 100 :
-
-Logon
-    , }
-,match  Kind2
-
-    as Trailer {0
-
-:
-Logout , },	}")).
-Eval vm_compute in ("<<<M1277>>>" ++ check (runes_of_ascii "// top
+MetaData Pad {
+    i8 metadata,
+    string stringy,
+    int8 As `{ , }`,
+}")).
+Eval vm_compute in ("<<<M1776>>>" ++ check (runes_of_ascii "
 options
-    // c0
+{ }options
+{ 
+_x
+
+= 
+""`tick`""
+    ; 
+matchKey =
+
+""it's"" ; options1=
+
+u16
+
+;stringy
+
+=true }
+packet
+x_y_z
+
 {
-    // c1
-LittleEndian // c2
-=
-    // c3
-true
-    // c4
-;
-    // c5
 }
-    // c6
-root // c7a
-  // c7b
-packet P // c9a
-  // c9b
-{ u16
-    // c11
-a // c12
-, // c13
-u32 // c14a
-  // c14b
-Sum
-    // c15
-@calculatedFrom( ""CRC32"" ) // c18a
-  // c18b
-,
-    // c19
-} // c20a
-  // c20b
 ")).
-Eval vm_compute in ("<<<M1735>>>" ++ check (runes_of_ascii "MetaData 	 //	t
-
-	x  { }
-	packet rootA
-
-    //x
-
-//	t
-  	{
-
-    i64 As
-    //x
-    	// @lengthOf(
-
-  @lengthOf(
-A
-
-)
-
-`// not a comment`
-
-    , 
-}options 
-{ asx 
-=	string
-	;
-i8i8 = zchar[ 0123456789
-
-] ;
-
-Foo
-
-    =
-    10
-
-    ; As
-
-    =
-true
-
-    ;}
-")).
-Eval vm_compute in ("<<<M1666>>>" ++ check (runes_of_ascii "packet body {
-    @lengthOf(T)
-    @lengthOf(int)
-    @leftPad('\x00')
-    asx len,
-    repeat zchar[3] int `" ++ [28040; 24687; 31867; 22411]%N ++ runes_of_ascii "`,
-    @lengthOf(options1)
-    match x as leftPad {
-        7 : x_y_z,
-        65535 : u128,
-        42 : x,
-    },//
-}")).
-Eval vm_compute in ("<<<M1945>>>" ++ check (runes_of_ascii "packet
-
-    Logon
-{ string user
-
-    ,
-}
-root 
-packet
-	Frame {
-u8
-K	,	match
-
-K
-as
-	Body
-	{1
-: Logon
-,
-    2  :Logout  ,  }  ,
-	Tail , }
-
-packet 
-Logout{ 
-u16 
-reason
-,}
-packet
-Tail
-
-{
-	u32 crc
-, }
-")).
-Eval vm_compute in ("<<<M1325>>>" ++ check (runes_of_ascii "
-root	packet
-	Frame { u8
-    K , 
-Logon
-	first  ,
-match
-
-    K 
-as
-Body{1 : Logon,
-    2 :
-Logout  ,
-	}	,
-} 
-packet
-Logon
-	{
-string user ,
-} packet
-Logout
-
-{ u16 
-reason , }")).
-Eval vm_compute in ("<<<M1256>>>" ++ check (runes_of_ascii "// top
-root // c0
-packet P // c2
-{ // c3
-hdr
-    // c4
-{
-    // c5
-u8 // c6
-a // c7a
-  // c7b
-,
-    // c8
-} , // c10
-u8 // c11
-x // c12a
-  // c12b
-, }
-    // c14
-")).
-Eval vm_compute in ("<<<M1888>>>" ++ check (runes_of_ascii "packet A {
+Eval vm_compute in ("<<<M1204>>>" ++ check (runes_of_ascii "options
+// c
+{ } options { MetaDataX = char ; } MetaData Pad { i8 metadata , string stringy , int8 As `{ , }` , }")).
+Eval vm_compute in ("<<<M1236>>>" ++ check (runes_of_ascii "options { } options { MetaDataX = char ; } MetaData Pad { i8 metadata , string
+// c
+stringy , int8 As `{ , }` , }")).
+Eval vm_compute in ("<<<M989>>>" ++ check (runes_of_ascii "packet A {
     match k as n {
-        [
-            1, 22, 007, 4, 5,
-            66, 7, 8, 9, 10,
-            11, 12
-        ] : B,
+        ""\
+"" : B,
+        [""\
+"", 1] : C,
+        [1,2,3,4,5,""\
+""] : D,
+    },
+}")).
+Eval vm_compute in ("<<<M942>>>" ++ check (runes_of_ascii "packet A {
+    Inner {
+        u8 x `a
+
+b`,
+        Deep {
+            u8 y `a
+
+b`,
+        },
+    },
+}")).
+Eval vm_compute in ("<<<M110>>>" ++ check (runes_of_ascii "options
+    {Foo= 00  ; Header =false calculatedFrom
+    = true; }	root  packet
+int //x
+{ len , }
+")).
+Eval vm_compute in ("<<<M870>>>" ++ check (runes_of_ascii "packet A {
+  match k as n {
+    [""a"", 22, ""c c"", 4, ""e"", 66, ""g"", 8, ""i""] : B
+    2 : C
+  },
+}")).
+Eval vm_compute in ("<<<M1660>>>" ++ check (runes_of_ascii "packet A {
+    B b `a
+        b`,
+    B `a
+        b`,
+    repeat B bs `a
+        b`,
+}")).
+Eval vm_compute in ("<<<M863>>>" ++ check (runes_of_ascii "packet A {
+  match k as n {
+    [1, 22, 007, 4, 5, 66, 7, 8, 9] : B,
+    2 : C
+  },
+}")).
+Eval vm_compute in ("<<<M850>>>" ++ check (runes_of_ascii "packet A {
+  match k as n {
+    [1, 22, 007, 4, 5, 66, 7, 8] : B,
+    2 : C
+  },
+}")).
+Eval vm_compute in ("<<<M838>>>" ++ check (runes_of_ascii "packet A {
+  match k as n {
+    [1, 22, 007, 4, 5, 66, 7] : B
+    2 : C
+  },
+}")).
+Eval vm_compute in ("<<<M1456>>>" ++ check (runes_of_ascii "packet A {
+    match k as n {
+        [1, 22] : B,
         2 : C,
     },
 }")).
-Eval vm_compute in ("<<<M471>>>" ++ check (runes_of_ascii "packet uint8x
-{ match pack
-    as msg_type	{
-    0123456789 :	float
-}
-,
-} packet //	t
-a1
-    { { } options {packetx
-    = '\x00'	; u128= ""a	b""  ; }
-")).
-Eval vm_compute in ("<<<M397>>>" ++ check (runes_of_ascii "packet {
-uint8x match pack
-    as msg_type	{
-    0123456789 :	float
-}
-,
-} packet //	t
-a1
-    { } options {packetx
-    = '\x00'	; u128= ""a	b""  ; }
-")).
-Eval vm_compute in ("<<<M1241>>>" ++ check (runes_of_ascii "// top
-root
-    // c0
-packet // c1
-P // c2a
-  // c2b
-{ // c3
-char
-    // c4
-c // c5a
-  // c5b
-, // c6a
-  // c6b
-u8
-    // c7
-x // c8
-, // c9
-} // c10
-")).
-Eval vm_compute in ("<<<M652>>>" ++ check (runes_of_ascii "// @lengthOf(
-packet i8i8 { u128 o , }
-options { MetaDataX = true;
-    BodyLength =""packet"" x_y_z= 007
-crc crc //x
-= ""abc"" ;
-    msg_type =
-i16 }")).
-Eval vm_compute in ("<<<M395>>>" ++ check (runes_of_ascii "packet 
-{ match pack
-    as msg_type	{
-    0123456789 :	float
-}
-,
-} packet //	t
-a1
-    { } options {packetx
-    = '\x00'	; u128= ""a	b""  ; }
-")).
-Eval vm_compute in ("<<<M1585>>>" ++ check (runes_of_ascii "MetaData falsey {
-    o i8i8,
-    char[] pack,
-    float32 lengthOf,
-    len BodyLength,
-    BodyLength o,
-    stringy u128 `crlf
-    line`,
-}")).
-Eval vm_compute in ("<<<M524>>>" ++ check (runes_of_ascii "packet uint8x
-{ match pack
-    as msg_type	{
-    0123456789 :	float
-}
-,
-} packet //	t
-a1
-    { } options {packetx
-    = '\x00'	; u128=")).
-Eval vm_compute in ("<<<M144>>>" ++ check (runes_of_ascii "  MetaData falsey {o i8i8
-,char[]
-pack  ,
-float32 lengthOf , len //x
-BodyLength, BodyLength o
-, stringy  u128	`crlf
-line` , } 	 ")).
-Eval vm_compute in ("<<<M343>>>" ++ check (runes_of_ascii "packet Header { repeat char[  0123456789 ]BodyLength`" ++ [28040; 24687; 31867; 22411]%N ++ runes_of_ascii "`/// triple
-, zchar[ 3
-    ] chars
-    ,// trailing space 
-A, } //")).
-Eval vm_compute in ("<<<M1145>>>" ++ check (runes_of_ascii "MetaData leftPad // c
-{ chars MetaDataX , } packet repeatCount { char[ 255 ] uint8x `" ++ [233]%N ++ runes_of_ascii "` , } MetaData pack { As Foo , }")).
-Eval vm_compute in ("<<<M1177>>>" ++ check (runes_of_ascii "MetaData leftPad { chars MetaDataX , } packet repeatCount { char[ 255 ] uint8x `" ++ [233]%N ++ runes_of_ascii "` , } MetaData // c
-pack { As Foo , }")).
-Eval vm_compute in ("<<<M893>>>" ++ check (runes_of_ascii "packet A {
+Eval vm_compute in ("<<<M875>>>" ++ check (runes_of_ascii "packet A { Inner { match k as n { [1,22,007,4,5,66,7,8,9] : B, }, }, }")).
+Eval vm_compute in ("<<<M778>>>" ++ check (runes_of_ascii "packet A {
   match k as n {
-    [""a"", ""bb"", ""c c"", ""d"", ""e"", ""f"", ""g"", ""h"", ""i"", ""j"", ""k""] : B,
+    [""a"", ""bb""] : B,
     2 : C
   },
 }")).
-Eval vm_compute in ("<<<M908>>>" ++ check (runes_of_ascii "packet A {
-  match k as n {
-    [1, ""bb"", 007, ""d"", 5, ""f"", 7, ""h"", 9, ""j"", 11, ""l""] : B,
-    2 : C
-  },
+Eval vm_compute in ("<<<M946>>>" ++ check (runes_of_ascii "packet A {
+    B b `x
+`,
+    B `x
+`,
+    repeat B bs `x
+`,
 }")).
-Eval vm_compute in ("<<<M1814>>>" ++ check (runes_of_ascii "packet FooBar {
-    u8 a,
-}
-
-packet foo_bar {
-    u16 b,
-}
-
-root packet R {
-    FooBar,
-    foo_bar,
-}")).
-Eval vm_compute in ("<<<M904>>>" ++ check (runes_of_ascii "packet A {
-  match k as n {
-    [1, 22, 007, 4, 5, 66, 7, 8, 9, 10, 11, 12] : B,
-    2 : C
-  },
-}")).
-Eval vm_compute in ("<<<M565>>>" ++ check (runes_of_ascii "
-packet
-    asx true match u128 as lengthOf
+Eval vm_compute in ("<<<M1642>>>" ++ check (runes_of_ascii "
+MetaData
+	M 
 {
-//	t
-// `tick` ""quote"" 'q'
-255 : x ,
-    } ,	}")).
-Eval vm_compute in ("<<<M629>>>" ++ check (runes_of_ascii "
-packet
-    asx {match u128 as lengthOf
-{
-//	t
-// `tick` ""quote"" 'q'
-255 : x ,
-    } ~ ,	}")).
-Eval vm_compute in ("<<<M589>>>" ++ check (runes_of_ascii "
-packet
-    asx {match u128 as lengthOf
-255
-//	t
-// `tick` ""quote"" 'q'
-{ : x ,
-    } ,	}")).
-Eval vm_compute in ("<<<M643>>>" ++ check (runes_of_ascii "
-packet
-    asx {match x" ++ [178]%N ++ runes_of_ascii " as lengthOf
-{
-//	t
-// `tick` ""quote"" 'q'
-255 : x ,
-    } ,	}")).
-Eval vm_compute in ("<<<M861>>>" ++ check (runes_of_ascii "packet A {
-  match k as n {
-    [1, 22, ""c c"", 4, 5, ""f"", 7, 8] : B
-    2 : C
-  },
-}")).
-Eval vm_compute in ("<<<M1094>>>" ++ check (runes_of_ascii "packet A { u16 // a
- len // b
- @lengthOf( // c
- body // d
- ) // e
- `d` // f
- , }")).
-Eval vm_compute in ("<<<M1584>>>" ++ check (runes_of_ascii "  packet
+u8	x  `x
+`
+    ,
+T	t
 
-    body
-{
-i32
+`x
+`
 
-    f32a `{ , }`// c
-  ,
-
-    }
-options {
-
-}")).
-Eval vm_compute in ("<<<M789>>>" ++ check (runes_of_ascii "packet A {
-  match k as n {
-    [""a"", ""bb"", ""c c""] : B,
-    2 : C
-  },
-}")).
-Eval vm_compute in ("<<<M739>>>" ++ check (runes_of_ascii "zchar[ i64 @calculatedFrom( match false ) Header char[ @lengthOf( :")).
-Eval vm_compute in ("<<<M1473>>>" ++ check (runes_of_ascii "MetaData M {
+    ,
+	}
+")).
+Eval vm_compute in ("<<<M1719>>>" ++ check (runes_of_ascii "root packet A {
     u8 x `a
-    
-    b`,
-    T t `a
-    
-    b`,
+        b
+      c`,
 }")).
-Eval vm_compute in ("<<<M1255>>>" ++ check (runes_of_ascii "root packet P {
-    hdr {
-        u8 a,
-    },
-    u8 x,
-}
-")).
-Eval vm_compute in ("<<<M786>>>" ++ check (runes_of_ascii "packet A { Inner { match k as n { [1,22] : B, }, }, }")).
-Eval vm_compute in ("<<<M1217>>>" ++ check (runes_of_ascii "packet body { i32 f32a `{ , }` , } options { // c
+Eval vm_compute in ("<<<M955>>>" ++ check (runes_of_ascii "MetaData M {
+    u8 x `
+x`,
+    T t `
+x`,
 }")).
-Eval vm_compute in ("<<<M233>>>" ++ check (runes_of_ascii "MetaData _x { i64 u128	, Packet Header, } 	 ")).
-Eval vm_compute in ("<<<M1537>>>" ++ check (runes_of_ascii "options
-
-    { u8x
-	=
-    ""packet"" 
-;	}")).
-Eval vm_compute in ("<<<M1838>>>" ++ check (runes_of_ascii "  packet
-
-    A { } 
-      // c" ++ [8239]%N ++ runes_of_ascii "
-")).
-Eval vm_compute in ("<<<M1284>>>" ++ check (runes_of_ascii "root packet P {
+Eval vm_compute in ("<<<M743>>>" ++ check ([65533; 65533]%N ++ runes_of_ascii "%" ++ [65533; 65533; 23]%N ++ runes_of_ascii "C" ++ [65533]%N ++ runes_of_ascii "c$/" ++ [65533; 18]%N ++ runes_of_ascii "o" ++ [65533; 65533]%N ++ runes_of_ascii "A" ++ [14; 65533]%N ++ runes_of_ascii "Z" ++ [65533; 25; 65533]%N ++ runes_of_ascii "x" ++ [65533]%N ++ runes_of_ascii "I?w" ++ [65533; 65533; 65533]%N ++ runes_of_ascii """&" ++ [924]%N ++ runes_of_ascii "R" ++ [65533; 20; 65533]%N)).
+Eval vm_compute in ("<<<M1187>>>" ++ check (runes_of_ascii "options { A // c
+= ""// no comment"" }")).
+Eval vm_compute in ("<<<M410>>>" ++ check (runes_of_ascii "packet
+    asx { @calculatedFrom(")).
+Eval vm_compute in ("<<<M1406>>>" ++ check (runes_of_ascii "root packet P {
     string s,
-}
-")).
-Eval vm_compute in ("<<<M1018>>>" ++ check (runes_of_ascii "packet A {
- u8 x `d" ++ [8233]%N ++ runes_of_ascii "`, // c" ++ [8233]%N ++ runes_of_ascii "
 }")).
-Eval vm_compute in ("<<<M1691>>>" ++ check (runes_of_ascii "// c" ++ [12288]%N ++ runes_of_ascii "
-    	packet
-A
-	{  }
-
-")).
-Eval vm_compute in ("<<<M576>>>" ++ check (runes_of_ascii "
-packet
-    asx {match")).
-Eval vm_compute in ("<<<M211>>>" ++ check (runes_of_ascii "MetaData
-roots {
+Eval vm_compute in ("<<<M257>>>" ++ check (runes_of_ascii "packet calculatedFrom
+{} 	 ")).
+Eval vm_compute in ("<<<M331>>>" ++ check (runes_of_ascii "
+ // `tick` ""quote"" 'q'")).
+Eval vm_compute in ("<<<M66>>>" ++ check (runes_of_ascii "MetaData metadata { }")).
+Eval vm_compute in ("<<<M1015>>>" ++ check (runes_of_ascii "packet A {
 }
-
-")).
-Eval vm_compute in ("<<<M986>>>" ++ check (runes_of_ascii "packet A {
-}
-// c" ++ [160]%N)).
-Eval vm_compute in ("<<<M1225>>>" ++ check (runes_of_ascii "
-// c
-packet x { }")).
-Eval vm_compute in ("<<<M1231>>>" ++ check (runes_of_ascii "packet x {
-// c
+// c" ++ [5760]%N)).
+Eval vm_compute in ("<<<M1898>>>" ++ check (runes_of_ascii "packet string_ {
 }")).
-Eval vm_compute in ("<<<M1762>>>" ++ check (runes_of_ascii "
-
-  // c" ++ [8287]%N ++ runes_of_ascii "
- 
+Eval vm_compute in ("<<<M405>>>" ++ check (runes_of_ascii "packet
+    asx {")).
+Eval vm_compute in ("<<<M1751>>>" ++ check (runes_of_ascii "
+// c" ++ [160]%N ++ runes_of_ascii "
 ")).
-Eval vm_compute in ("<<<M1035>>>" ++ check (runes_of_ascii "// c" ++ [12]%N)).
+Eval vm_compute in ("<<<M17>>>" ++ check (runes_of_ascii "
+")).
